@@ -153,6 +153,20 @@ def check_flop(name):
     regs = list(block.wirevector_subset(pyrtl.Register))
     if len(regs) != 1:
         return dict(failed=True, observed='%d registers' % len(regs), expected='1 register', blif=blif)
+    # the file gives a .subckt flop no initial value: it starts at the simulator's default
+    for dv in (0, 1):
+        sim = pyrtl.Simulation(default_value=dv, block=block)
+        inp = {'d': 1 - dv}
+        if has_e:
+            inp['e'] = 0 if pol[-1] == 'P' else 1      # enable inactive
+        if has_s:
+            inp['s'] = 0
+        if has_r:
+            inp['r'] = 0 if pol[1 if not has_s else 2] == 'P' else 1      # reset inactive
+        sim.step(inp)
+        if sim.inspect('q') != dv:
+            return dict(failed=True, observed=dict(initial_q=sim.inspect('q'), default_value=dv),
+                        expected=dict(initial_q=dv), blif=blif)
     for q0 in (0, 1):
         for (d, e, s, r) in itertools.product([0, 1], repeat=4):
             sim = pyrtl.Simulation(register_value_map={regs[0]: q0}, block=block)
@@ -302,4 +316,61 @@ def check_wide_vector(n=12, merge=True):
         exp = ((v << 1) | (v >> (n - 1))) & ((1 << n) - 1)
         if got != exp:
             return dict(failed=True, observed=dict(a=hex(v), o=hex(got)), expected=hex(exp))
+    return dict(failed=False, observed='ok', expected='ok')
+
+
+HIER_BLIF = """.model top
+.inputs a b c d
+.outputs y0 y1 y2 y3
+.subckt cell x=a y=b o=y0
+.subckt cell x=c y=d o=y1
+.subckt cell2 x=b y=c o=y2
+.subckt cell x=d y=a o=y3
+.end
+
+.model cell
+.inputs x y
+.outputs o
+.names x y t
+10 1
+.names t y x o
+1-0 1
+-01 1
+.end
+
+.model cell2
+.inputs x y
+.outputs o
+.names x y t
+01 1
+.names t x o
+10 1
+00 1
+.end
+"""
+
+
+def check_hier(merge=True):
+    """one model instantiated several times on different nets and two models sharing local net
+    names, with covers containing complemented literals: every input vector"""
+    import pyrtl
+    try:
+        _import_blif(HIER_BLIF, merge)
+    except Exception as e:
+        return dict(failed=True, observed='%s: %s' % (type(e).__name__, str(e)[:100]), expected='imports')
+
+    def cell(x, y):
+        t = int(x == 1 and y == 0)
+        return int((t == 1 and x == 0) or (y == 0 and x == 1))
+
+    def cell2(x, y):
+        t = int(x == 0 and y == 1)
+        return int((t == 1 and x == 0) or (t == 0 and x == 0))
+    sim = pyrtl.Simulation()
+    for a, b, c, d in itertools.product([0, 1], repeat=4):
+        sim.step(dict(a=a, b=b, c=c, d=d))
+        exp = dict(y0=cell(a, b), y1=cell(c, d), y2=cell2(b, c), y3=cell(d, a))
+        got = {k: sim.inspect(k) for k in exp}
+        if got != exp:
+            return dict(failed=True, observed=dict(inputs=(a, b, c, d), **got), expected=exp)
     return dict(failed=False, observed='ok', expected='ok')
